@@ -5,6 +5,7 @@ import (
 
 	cose "github.com/veraison/go-cose"
 
+	"verif/refcbor"
 	"verif/tape"
 )
 
@@ -33,13 +34,37 @@ func (r *Run) c06Call(name string, input []byte, f func()) {
 	}
 }
 
+// Work budget of one decoding call, in go-cose statements executed (counted by
+// the instrumented copy; deterministic and independent of machine load):
+// linear in the input size with a generous constant.  On the unchanged tree
+// the largest ratio observed over millions of inputs is below 30 statements
+// per input byte (probe "max-steps-per-byte"); the budget allows 40 times
+// that, so it only trips on super-linear behaviour on large inputs.
+const (
+	c06StepsPerByte = 1200
+	c06StepsBase    = 400000
+)
+
+func (r *Run) c06Work(name string, input []byte, steps uint64) {
+	if steps == 0 {
+		return
+	}
+	if ratio := int(steps) / (len(input) + 1); ratio > r.Probes["max-steps-per-byte"] {
+		r.Probes["max-steps-per-byte"] = ratio
+	}
+	if steps > uint64(c06StepsPerByte*len(input)+c06StepsBase) {
+		r.Check()
+		r.Fail("superlinear-work/"+name, "%s executed %d go-cose statements for a %d-byte input (budget %d): the work grows faster than the input\ninput: %s", name, steps, len(input), c06StepsPerByte*len(input)+c06StepsBase, hexShort(input))
+	}
+}
+
 func scenarioC06(r *Run) {
 	t := r.T
 	fm := GenFaultMix(t)
 	ent := NewEntropy(uint64(t.U32("entropy.seed")))
 	var input []byte
 	kind := ""
-	switch t.Pick([]int{6, 5, 1, 2}, "c06.inputkind") {
+	switch t.Pick([]int{240, 200, 40, 80, 3}, "c06.inputkind") {
 	case 0:
 		to := TrafficOpts{Spec: SpecOpts{MaxExtra: 3, MaxSigner: 3, Cheap: true}, CsigDepth: 2, Abbrev: true, ForeignPct: 40, Detach: true}
 		b, victim := r.damagedInput(t, fm, ent, to, 3)
@@ -68,6 +93,29 @@ func scenarioC06(r *Run) {
 		}
 		r.Op("RANDOM", "%s", hexShort(input))
 		kind = "random"
+	case 4:
+		// a large but perfectly legal header: thousands of private labels (a
+		// 64 KiB message is nothing unusual).  Prompt termination is judged
+		// by counting go-cose statements, not by the clock.
+		n := []int{600, 1500, 4000}[t.Choose(3, "c06.large.n")]
+		var kv []*refcbor.Item
+		for i := 0; i < n; i++ {
+			kv = append(kv, refcbor.Int(int64(100000+i)), refcbor.Int(int64(i)))
+		}
+		big := refcbor.Map(kv...)
+		switch t.Choose(3, "c06.large.where") {
+		case 0:
+			input = refcbor.Encode(big)
+			kind = "large:UnprotectedHeader"
+		case 1:
+			input = refcbor.Encode(refcbor.Bstr(refcbor.Encode(big)))
+			kind = "large:ProtectedHeader"
+		default:
+			input = refcbor.Encode(refcbor.Tag(18, refcbor.Array(refcbor.Bstr(refcbor.Encode(refcbor.Map(refcbor.Int(1), refcbor.Int(-7)))), big, refcbor.Bstr([]byte("p")), refcbor.Bstr(make([]byte, 64)))))
+			kind = "large:Sign1Message"
+		}
+		r.Op("LARGE", "%d header labels, %d bytes", n, len(input))
+		r.Probe("large-header-map")
 	default:
 		// hash envelope
 		k := pickCheapKey(t)
@@ -106,7 +154,9 @@ func scenarioC06(r *Run) {
 		dec := &Decoders[i]
 		dst := dec.New()
 		var err error
+		before := LibSteps()
 		r.c06Call(dec.Name+".UnmarshalCBOR", input, func() { err = dec.Into(dst, input) })
+		r.c06Work(dec.Name+".UnmarshalCBOR", input, LibSteps()-before)
 		r.Logf("%s: %s", dec.Name, errTag(err))
 		if err != nil {
 			continue
